@@ -3,7 +3,7 @@
 use pf::mutators::*;
 #[allow(unused_imports)]
 use pf::verif::{EntropySource, GenerationSource};
-use pf::{Generator, Mutator, Version};
+use pf::{EmissionSnapshot, Generator, Mutator, Version};
 use rand::SeedableRng;
 use rand_chacha::ChaCha8Rng;
 use std::collections::HashMap;
@@ -190,7 +190,24 @@ fn kv(line: &str) -> HashMap<String, String> {
         .collect()
 }
 
+/// a mutator that mutates nothing and draws nothing, but takes its time: `sleep:<ms>` per post-processed opcode.
+/// Outputs must be the same with and without it (slow-motion run: nothing may depend on elapsed time).
+#[derive(Debug)]
+struct SleepMutator(u64);
+impl Mutator for SleepMutator {
+    fn name(&self) -> &str {
+        "sleep"
+    }
+    fn post_process(&self, _s: &EmissionSnapshot, _o: &mut Vec<u8>, _src: &mut GenerationSource, _rate: f64) -> bool {
+        std::thread::sleep(std::time::Duration::from_millis(self.0));
+        false
+    }
+}
+
 fn mk_mutator(name: &str) -> Box<dyn Mutator> {
+    if let Some(ms) = name.strip_prefix("sleep:") {
+        return Box::new(SleepMutator(ms.parse().unwrap()));
+    }
     match name {
         "bitflip" => Box::new(BitFlipMutator),
         "boundary" => Box::new(BoundaryMutator),
